@@ -492,7 +492,7 @@ def run_coq(items):
     files = []
     for name, prelude, terms in items:
         t = 'From Coq Require Import ZArith QArith List Bool.\nImport ListNotations.\n' + '\n'.join(REQ) + '\nOpen Scope Q_scope.\n' + prelude + '\n'
-        t += 'Definition cases : list (nat * bool) := [\n' + ';\n'.join('(%d%%nat, %s)' % (i, c) for i, c in enumerate(terms)) + '].\n'
+        t += 'Definition cases : list (Z * bool) := [\n' + ';\n'.join('(%d%%Z, %s)' % (i, c) for i, c in enumerate(terms)) + '].\n'   # Z indices: unary nat literals made elaboration quadratic
         t += 'Definition bad := map fst (filter (fun p => negb (snd p)) cases).\nEval vm_compute in (length cases, bad).\n'
         files.append(('C07_' + name, t))
     outs = common.coq_scratch_many(files, timeout=900)
@@ -638,26 +638,26 @@ def build_plan(res):
     plan = Plan(res)
     # (Ia) exact grids, injected law, whole construction
     ns = [1, 2, 3, 4, 5, 8, 10, 16, 100] if quick else [1, 2, 3, 4, 5, 7, 8, 10, 16, 25, 64, 100]
-    reps = 1 if quick else 5
+    reps = 1 if quick else 4
     for rep in range(reps):
         for n in ns:
             Lmax = exact_grid_config(rng, n)
             if Lmax is None:
                 continue
-            plan_single(plan, rng, dict(law=rand_inj(rng), Lmax=Lmax, bins=n), True, 12 if quick else 60)
+            plan_single(plan, rng, dict(law=rand_inj(rng), Lmax=Lmax, bins=n), True, 12 if quick else 40)
     # (II) float grids, real laws + injected law, class selection on the implementation's own float tables
     big = 25 if quick else 100          # quick keeps three 100-class tables (default bin count), the rest smaller
     fl = [(EN1, 359.3, 100), (EN2, 1266.25 * 0.8, big), (SB1, 359.3, 100), (EN1, 250.0, 7), (EN3, 1000.0 / 3, big + 5),
           (EN1, 0.1, 10), (SB1, 400.0, 13), (rand_inj(rng), 359.3, 100), (rand_inj(rng), 1.4 * 260.0, 3), (rand_inj(rng), 77.7, 1)]
-    nrand = 3 if quick else 60
+    nrand = 3 if quick else 40
     for _ in range(nrand):
         law = rng.choice([EN1, EN2, EN3, SB1, rand_inj(rng)])
         n = rng.randint(2, 40) if quick else rng.choice([rng.randint(2, 150), 100, 100])
         fl.append((law, rng.choice([rng.uniform(1.0, 2000.0), round(rng.uniform(1.0, 900.0), 1)]), n))
     for law, Lmax, n in fl:
-        plan_single(plan, rng, dict(law=law, Lmax=Lmax, bins=n), False, 16 if quick else 80)
+        plan_single(plan, rng, dict(law=law, Lmax=Lmax, bins=n), False, 16 if quick else 40)
     # per-point tables: exact (Ia) and float (II)
-    for rep in range(3 if quick else 20):
+    for rep in range(3 if quick else 16):
         n = rng.choice([1, 2, 3, 4, 5, 8, 10, 16])
         P = rng.randint(1, 4)
         for _ in range(40):
@@ -669,13 +669,13 @@ def build_plan(res):
         else:
             continue
         ids = rng.sample(range(1, 50), P)
-        plan_multi(plan, rng, dict(law=rand_inj(rng), Lmax=Lms, bins=n, node_ids=ids), True, 10 if quick else 40, u=u, jexp=jexp)
-    for rep in range(3 if quick else 20):
+        plan_multi(plan, rng, dict(law=rand_inj(rng), Lmax=Lms, bins=n, node_ids=ids), True, 10 if quick else 30, u=u, jexp=jexp)
+    for rep in range(3 if quick else 16):
         n = rng.choice([10, 100, rng.randint(2, 120)])
         P = rng.randint(2, 4)
         Lms = [rng.choice([rng.uniform(5.0, 1500.0), round(rng.uniform(5.0, 900.0), 1)]) for _ in range(P)]
         law = rng.choice([EN1, EN2, SB1, rand_inj(rng)])
-        plan_multi(plan, rng, dict(law=law, Lmax=Lms, bins=n, node_ids=rng.sample(range(1, 50), P)), False, 8 if quick else 30)
+        plan_multi(plan, rng, dict(law=law, Lmax=Lms, bins=n, node_ids=rng.sample(range(1, 50), P)), False, 8 if quick else 24)
     return plan
 
 
